@@ -341,6 +341,8 @@ class Interp:
             raise Unsupported("symbolic size used as number")
         if isinstance(v, Field) and v.comps == 1 and v.kind != "index":
             if v.kind == "complex":
+                if v.name.endswith("~"):
+                    return self.T.cplx(v.name[:-1]).conj()
                 return self.T.cplx(v.name)
             return self.T.real(v.name, v.sign)
         raise Unsupported(f"not a scalar term: {v!r}")
@@ -370,6 +372,8 @@ class Interp:
             if f.comps == 2:
                 return Vec2(self.T.real(nm + ".x"), self.T.real(nm + ".y"))
             if f.kind == "complex":
+                if f.name.endswith("~"):
+                    return self.T.cplx(f"{f.name[:-1]}@{idx.name}").conj()
                 return self.T.cplx(nm)
             return self.T.real(nm, f.sign)
         if isinstance(f, Rat):
